@@ -88,6 +88,11 @@ impl Vm {
           self.inline_cache[module.id()] = cache;
         }
       } else {
+        // a module that failed to compile consumed an id without getting a
+        // cache, keep the vector indexable by module id
+        while self.inline_cache.len() < module.id() {
+          self.inline_cache.push(InlineCache::new(0, 0));
+        }
         self.inline_cache.push(cache);
       }
 
